@@ -33,6 +33,7 @@ def run(model, res, tier):
     res.rule('R3', 'error codes: closed nine-entry table, constructions only in the error module, error = None | str(from_message(.))')
     res.rule('R4', 'error set => result None; result is never an error object')
     res.rule('R5', 'every reachable loop has a termination argument')
+    res.rule('R6', 'no regular expression used by the lexer or by reachable code is exponentially ambiguous')
     res.assumptions += ['A1 host lists are finite; str() of a raised exception does not raise',
                         'A4 stdlib iterables other than itertools.count/cycle/repeat are finite',
                         'A6 KeyboardInterrupt/SystemExit are not "raising callbacks"']
@@ -44,6 +45,7 @@ def run(model, res, tier):
     _r3(model, res, c, m, f, root)
     _r4(model, res, c, m, f, root)
     _r5(model, res, c)
+    _r6(model, res, c)
 
 
 # ---------------------------------------------------------------------------------------------------
@@ -691,3 +693,56 @@ def _strict_update(m, f, w, u, var, kind, bound, iv, facts, consts):
             return True, '%s += %s with upper bound' % (var, kc)
         return None, ''
     return None, ''
+
+
+# ---------------------------------------------------------------------------------------------------
+# R6 - regular expressions: no exponential backtracking
+
+RE_FUNCS = ('re.compile', 're.match', 're.search', 're.sub', 're.subn', 're.finditer', 're.findall', 're.fullmatch', 're.split')
+
+
+def package_regexes(model, c):
+    """(where-key, Module, node, pattern) for every regex literal: lexer token rules and re.* calls."""
+    out = []
+    g = c.grammar
+    for t in g.lex_tokens:
+        out.append(('lexer:t_%s' % t.name, g.lexer_module, t.node, t.regex))
+    for m in model.modules.values():
+        for n in ast.walk(m.tree):
+            if isinstance(n, ast.Call) and n.args:
+                r = model.resolve_attr_chain(m, n.func) if isinstance(n.func, (ast.Name, ast.Attribute)) else None
+                full = (r[1] + '.' + r[2]) if (r and r[0] == 'extattr') else None
+                if full in RE_FUNCS:
+                    a = n.args[0]
+                    if isinstance(a, ast.Name):
+                        fdef = m.enclosing_function(n)
+                        a2 = sa.resolve_local(fdef, a) if fdef is not None else a
+                        if isinstance(a2, ast.Name):
+                            rr = model.resolve(m, a2.id)
+                            a2 = rr[3] if (rr and rr[0] == 'const') else a2
+                        a = a2
+                    if isinstance(a, ast.Constant) and isinstance(a.value, str):
+                        out.append(('%s:%s:%s' % (m.name, m.qualname_of(n), _norm(a.value)), m, n, a.value))
+    return out
+
+
+def _r6(model, res, c):
+    from .. import rx
+    regs = package_regexes(model, c)
+    res.floor('regular expressions examined', len(regs), 40)
+    for key, m, node, pat in regs:
+        try:
+            nfa = rx.build(pat)
+            al = rx.alphabet([nfa])
+            w = rx.eda_witness(nfa, al)
+        except rx.Unsupported as e:
+            res.ob('R6', key, pat, True, 'undecided: construct not modelled (%s)' % e)
+            res.notes.append('C01.R6: %s uses %s; ambiguity undecided' % (key, e))
+            continue
+        res.ob('R6', key, pat, w is None, None if w is None else 'pumpable: %r' % (w[1],))
+        if w is not None:
+            res.violation('R6', '%s:exponential-regex' % key, m.where(node),
+                          'the regular expression %r is exponentially ambiguous: the substring %r can be matched in two different ways '
+                          'that return to the same point, so on an input that repeats it and then fails to match, the backtracking '
+                          'matcher needs time exponential in the input length - parse() does not return in bounded time' % (pat, w[1]),
+                          case=w[1], func=m.qualname_of(node))
